@@ -15,6 +15,7 @@ import (
 
 	quic "github.com/refraction-networking/uquic"
 	"github.com/refraction-networking/uquic/verif/sim"
+	"github.com/refraction-networking/uquic/verif/vf"
 )
 
 const ms = time.Millisecond
@@ -96,6 +97,7 @@ type result struct {
 	lnB      *quic.Listener
 	serverTLS func() *tls.Config
 	finalNow time.Duration
+	u        *vf.Unit
 }
 
 func (r *result) ep(name string) *endpoint {
@@ -512,10 +514,7 @@ func runCase(c Case, res *result) {
 	hs := c.Phase == "handshake"
 
 	// ---- time plan (absolute virtual times since the world started)
-	tArm := 8*rtt + 30*ms
-	if c.TruncLen > 0 {
-		tArm += 2 * (3*rtt + 60*ms)
-	}
+	tArm := time.Duration(c.armMs()) * ms
 	tCause := tArm + 2*ms + time.Duration(c.AtMs)*ms
 	if hs {
 		tCause = time.Duration(c.AtMs) * ms
